@@ -450,6 +450,189 @@ def r8(ctx, r):
                  okdesc="TlsConfig::%s forwarded to clientTls" % fld["n"])
 
 
+PU = HC + "::ParsedUrl"
+
+
+def r9(ctx, r):
+    """The TLS mode of a connection is a function of some URL fields (today: scheme).  A connection taken from the client's
+    cache is handed to a request only if those fields took part in selecting it: either they are part of the cache key, or the
+    cached return is dominated by an equality between what the entry stores and the request's value (and the entry stores it)."""
+    from ..finite import dominating_facts
+    fb = ctx.fb()
+    memo = {}
+
+    def fields_of_accessor(name):
+        if name in memo:
+            return memo[name]
+        memo[name] = set()
+        out = set()
+        for g in fb.funcs(name, HCFILE):
+            for n in g.nodes.values():
+                if n.get("k") == "member" and n["n"].startswith(PU + "::"):
+                    out.add(last(n["n"]))
+                if n.get("k") == "mcall" and n.get("callee", "").startswith(PU + "::") and n["callee"] != name:
+                    out |= fields_of_accessor(n["callee"])
+        memo[name] = out
+        return out
+
+    def inits_of(f):
+        d = {}
+        for e in f.stmts():
+            if e.node.get("k") == "decl":
+                for v in e.node["vars"]:
+                    if v.get("init") is not None:
+                        d[v["d"]] = v["init"]
+        return d
+
+    def url_fields(f, node, inits, seen=frozenset()):
+        out = set()
+        for n in walk(node):
+            k = n.get("k")
+            if k == "member" and n["n"].startswith(PU + "::"):
+                out.add(last(n["n"]))
+            elif k == "mcall" and n.get("callee", "").startswith(PU + "::"):
+                out |= fields_of_accessor(n["callee"])
+            elif k == "var" and n.get("d") in inits and n["d"] not in seen:
+                out |= url_fields(f, inits[n["d"]], inits, seen | {n["d"]})
+        return out
+
+    def direct_fields(f, node, inits, seen=frozenset()):
+        """like url_fields, but a value that went through any other call (connectSync's result …) is not a copy of the field"""
+        node = strip_casts(strip_wrappers(node))
+        if node is None:
+            return set()
+        k = node.get("k")
+        if k == "member" and node["n"].startswith(PU + "::"):
+            return {last(node["n"])}
+        if k == "mcall" and node.get("callee", "").startswith(PU + "::"):
+            return fields_of_accessor(node["callee"])
+        if k == "var" and node.get("d") in inits and node["d"] not in seen:
+            return direct_fields(f, inits[node["d"]], inits, seen | {node["d"]})
+        if k in ("bin", "un", "cond", "cast", "paren"):
+            out = set()
+            for key in ("lhs", "rhs", "v", "c", "t", "f"):
+                if isinstance(node.get(key), dict):
+                    out |= direct_fields(f, node[key], inits, seen)
+            return out
+        return set()
+
+    def from_cache(node, inits, seen=frozenset()):
+        for n in walk(node):
+            if n.get("k") == "member" and n["n"] == HC + "::_connections":
+                return True
+            if n.get("k") == "var" and n.get("d") in inits and n["d"] not in seen and from_cache(inits[n["d"]], inits, seen | {n["d"]}):
+                return True
+        return False
+
+    def lookup_key(node, inits, seen=frozenset()):
+        """argument expressions of the _connections lookups the value comes from"""
+        keys = []
+        for n in walk(node):
+            if n.get("k") in ("mcall", "opcall") and any(x.get("k") == "member" and x["n"] == HC + "::_connections" for x in walk(n.get("obj") or (n.get("args") or [{}])[0])):
+                args = n.get("args", [])
+                if n.get("k") == "opcall":
+                    args = args[1:]
+                if last(n.get("callee", "")) in ("find", "at", "operator[]", "count", "equal_range"):
+                    keys.extend(args)
+            if n.get("k") == "var" and n.get("d") in inits and n["d"] not in seen:
+                keys.extend(lookup_key(inits[n["d"]], inits, seen | {n["d"]}))
+        return keys
+
+    hc = [g for g in fb.methods_of(HC) if g.ok]
+    # (a) where the TLS mode of a new connection is chosen
+    tls_fields = set()
+    nsites = 0
+    for f in hc:
+        inits = inits_of(f)
+        for n in f.nodes.values():
+            if n.get("k") == "mcall" and last(n.get("callee", "")) in ("connectSync", "connect") and "Transport" in n.get("cls", ""):
+                for a in n.get("args", []):
+                    if "TlsMode" in (a.get("t") or ""):
+                        ff = url_fields(f, a, inits)
+                        if ff:
+                            nsites += 1
+                            tls_fields |= ff
+    if not nsites:
+        raise AnalysisBroken("HttpClient: no connect site whose TLS mode is derived from the URL")
+    # (b) every return of a cached session id
+    nret = 0
+    for f in hc:
+        inits = inits_of(f)
+        for e in f.stmts():
+            n = e.node
+            if n.get("k") != "ret" or n.get("v") is None or not from_cache(n["v"], inits):
+                continue
+            vt = (strip_casts(n["v"]) or {}).get("t") or ""
+            if "SessionId" not in vt and vt != "unsigned long":
+                continue
+            nret += 1
+            r.instance()
+            keyf = set()
+            entry_fields = set()
+            npub = [0]
+            for kx in lookup_key(n["v"], inits):
+                keyf |= url_fields(f, kx, inits)
+            condf = set()
+            for (c, t) in dominating_facts(f, e):
+                if not from_cache(c, inits):
+                    continue
+                cf = url_fields(f, c, inits) & tls_fields
+                if not cf:
+                    continue
+                c0 = strip_casts(c)
+                shape_ok = False
+                if c0.get("k") in ("bin", "opcall") and c0.get("op") in ("==", "!="):
+                    lhs, rhs = (c0.get("lhs"), c0.get("rhs")) if c0.get("k") == "bin" else (c0["args"][0], c0["args"][1])
+                    sides = [(from_cache(x, inits), bool(url_fields(f, x, inits) & tls_fields)) for x in (lhs, rhs)]
+                    if sorted(sides) == [(False, True), (True, False)]:
+                        shape_ok = True
+                        if (c0.get("op") == "==") == t:
+                            condf |= cf
+                            for x in (lhs, rhs):
+                                for y in walk(x):
+                                    if y.get("k") == "member" and y["n"].startswith(HC + "::ConnectionEntry::"):
+                                        entry_fields.add(last(y["n"]))
+                if not shape_ok:
+                    raise AnalysisBroken("%s:%d: a test relates the cached entry to %s in a form this rule does not know: %s" % (short(f.name), e.line, sorted(cf), show(c)[:80]))
+            missing = tls_fields - keyf - condf
+            ok = not missing
+            if ok and (tls_fields - keyf):
+                # the proof rests on what the entry stores: every store into the cache must record it in that field
+                rec = fb.record(HC + "::ConnectionEntry")
+                order = [x["n"] for x in rec["fields"]]
+                for g in hc:
+                    gi = inits_of(g)
+                    for x in g.stmts():
+                        xn = x.node
+                        if not (xn.get("k") == "opcall" and xn.get("op") == "=" and "ConnectionEntry" in (xn.get("t") or "")
+                                and any(y.get("k") == "member" and y["n"] == HC + "::_connections" for y in walk(xn["args"][0]))):
+                            continue
+                        npub[0] += 1
+                        v = strip_casts(strip_wrappers(xn["args"][1]))
+                        while v is not None and v.get("k") in ("cast", "ctor") and v.get("k") != "ilist":
+                            inner = v.get("v") or (v.get("args") or [None])[0]
+                            if inner is None:
+                                break
+                            v = strip_casts(inner)
+                        if v is None or v.get("k") != "ilist":
+                            raise AnalysisBroken("%s:%d: store into the connection cache is not an aggregate initialiser (%s)" % (short(g.name), x.line, show(xn)[:80]))
+                        for fld in sorted(entry_fields):
+                            idx = order.index(fld) if fld in order else -1
+                            val = v["vals"][idx] if 0 <= idx < len(v["vals"]) else None
+                            got = direct_fields(g, val, gi) if val is not None else set()
+                            r.expect((tls_fields - keyf) <= got, g, x, "cache entry does not record the TLS mode", "reuse compares ConnectionEntry::%s with the request's %s, but this store into the cache "
+                                     "does not record it there (%s): the comparison tests a default value" % (fld, "/".join(sorted(tls_fields - keyf)), "field left to its default" if val is None else show(val)[:60]),
+                                     okdesc="entry records %s in ::%s" % (sorted(tls_fields - keyf), fld))
+                if not npub[0]:
+                    raise AnalysisBroken("HttpClient: no store into the connection cache found")
+            r.expect(ok, f, e, "cached connection reused across TLS modes", "a connection taken from the cache is returned although the URL field(s) %s that decide the TLS mode of a new connection (%s) took no part in "
+                     "selecting it (cache key reads %s; no dominating equality between the entry and the request): an https:// request is written in clear text over a connection cached by an earlier http:// request to the same "
+                     "host:port (and vice versa)" % (sorted(missing), "isHttps() ? Client : None", sorted(keyf) or "nothing"),
+                     okdesc="cached connection selected by %s" % sorted(tls_fields))
+    if not nret:
+        raise AnalysisBroken("HttpClient: no return of a cached session id found (connection cache gone?)")
+
+
 def run(ctx, ck):
     r1 = ck.rule("C07-R1", "peer verification is switched on when configured and never lowered", "A10 API protocol + A5")
     r2 = ck.rule("C07-R2", "TLS 1.2 floor on every context", "A10 + A5")
@@ -464,3 +647,4 @@ def run(ctx, ck):
     ck.run_rule("C07-R6", "no clear-text application bytes on a TLS session (= C01-R5)", "A5", lambda r: r6(ctx, r))
     ck.run_rule("C07-R7", "the peer's name is checked", "A10 + dataflow", lambda r: r7(ctx, r))
     ck.run_rule("C07-R8", "the HTTP client forwards its TLS configuration", "A10 closed set", lambda r: r8(ctx, r))
+    ck.run_rule("C07-R9", "a cached client connection is reused only for the TLS mode it was opened with", "dataflow: URL fields deciding the TLS mode vs. fields selecting the cached entry", lambda r: r9(ctx, r))
